@@ -46,6 +46,17 @@ Proof.
   - split; [eapply status_passed_yes; exact E|]. intros _. apply current_status_open_passed. exact E.
 Qed.
 
+(* and conversely: a proposal the queries report as Passed is admitted, for every authorised caller,
+   with exactly the refund and the proposed messages (S_C03 clause 10 checks this on the implementation) *)
+Theorem c03_admission_complete : forall ms gv blk sender id p,
+  getp ms id = Some p -> q_status ms blk id = Some Passed -> (flex ms = true -> authorized ms gv sender = true) ->
+  do_execute ms gv blk sender id =
+    Ok (set_prop ms id (with_status p Executed),
+        (match p_deposit p with Some d => [refund_msg d (p_proposer p)] | None => [] end) ++ map EUser (p_msgs p)).
+Proof.
+  intros ms gv blk sender id p G Q A. unfold do_execute. unfold q_status in Q. unfold getp in G. rewrite G in *. rewrite Q.
+  cbn [status_eqb negb]. destruct (flex ms); [rewrite (A eq_refl)|]; reflexivity.
+Qed.
 (* why a stored (sticky) Passed / Rejected stays justified while votes keep arriving: a decision taken
    before expiry holds for every later tally within the total, in both expiry states (C04) *)
 Theorem c03_sticky_passed : forall th T v, in_range th T v -> is_passed th T v false = Some true ->
@@ -153,3 +164,4 @@ Print Assumptions c03_latch_step.
 Print Assumptions c03_status_is_outcome.
 Print Assumptions c03_fixed_history.
 Print Assumptions c03_flex_history.
+Print Assumptions c03_admission_complete.
